@@ -61,6 +61,7 @@ CFG = {
 
 # reported verdict = code + 1000 * (step index + 1)
 CODES = {
+    180: 'a ranking leaf on its own: hybrid score is not weight x score (text) / -(weight x distance) (vectors) for the weight the request carries (an explicit 0 included; 1 when absent)',
     181: 'a valid composite request failed',
     182: 'duplicate ids',
     183: 'a returned point is outside the union/intersection',
